@@ -420,6 +420,89 @@ fitted target of the told point the candidate coincides with (`cands` = index of
 def interpolate (targets : Vec) (cands : List Nat) : Option Vec :=
   mapOpt (fun i => targets[i]?) cands
 
+/-! ### one-shot batch strategies of `Optimizer.ask` (`topk`, first member of `boltzmann`)
+
+`Optimizer._tell` caches the candidate points `xs` (`_last_Xsample`: what is left of the drawn sample after
+`_filter_duplicated`) and the acquisition values computed ON THEM (`_last_values`); `ask(n, "topk")` returns
+`[xs[i] for i in np.argsort(values)[:n]]`, `ask(n, "boltzmann")` starts with `xs[np.argmax(-values)]`.
+The permutation returned by `np.argsort` is an environment input (its order among ties is the sorting
+algorithm's business) with the contract `ArgsortOK` (Proofs/DirectionBatch). -/
+
+/-- positions selected by `topk`: `np.argsort(values)[:n]` -/
+def topkIdx (order : List Nat) (n : Nat) : List Nat := order.take n
+
+/-- the configurations returned for selected positions: `[xs[i] for i in idx]` (`none`: `IndexError`) -/
+def batchOf {α : Type} (xs : List α) (idx : List Nat) : Option (List α) := mapOpt (fun i => xs[i]?) idx
+
+/-- `idx` is a selection of the `n` smallest entries of `values`: distinct in-range positions, `min n len` of them, and
+no position left out has a strictly smaller value than a selected one (decidable form; `IsNSmallest` in Props) -/
+def isNSmallestB (values : Vec) (idx : List Nat) (n : Nat) : Bool :=
+  idx.length == min n values.length && decide idx.Nodup && idx.all (· < values.length) &&
+  idx.all (fun i => (List.range values.length).all (fun j => idx.contains j ||
+    match values[i]?, values[j]? with
+    | some a, some b => decide (a ≤ b)
+    | _, _ => false))
+
+/-- `np.argmax(-values)`: first position of the largest negated value -/
+def argmaxNegFrom (best : Rat) (bi : Nat) (i : Nat) : Vec → Nat
+  | [] => bi
+  | a :: l => if best < -a then argmaxNegFrom (-a) i (i + 1) l else argmaxNegFrom best bi (i + 1) l
+
+/-- first member of a `boltzmann` batch: `np.argmax(-self._last_values)` (`none`: empty array raises) -/
+def boltzmannFirst (values : Vec) : Option Nat :=
+  match values with
+  | [] => none
+  | a :: l => some (argmaxNegFrom (-a) 0 1 l)
+
+/-! ### `update_prior=True`: which observations the sampling prior of a real hyperparameter is re-fitted on
+
+`CBO(update_prior=True, update_prior_quantile=p)` hands `q = 1 - p` to the optimizer; after every surrogate fit
+`Optimizer._tell` calls `Space.update_prior(Xtransformed, yi, q)` with the FITTED TARGETS `yi` (negated, scaled,
+scalarised objectives: smaller is better), and `Real.update_prior` re-fits the kernel-density prior on
+`X[y <= np.quantile(y, q)]`.  The kernel-density estimate itself and what is sampled from it are environment. -/
+
+/-- `CBO.__init__`: `"update_prior_quantile": 1 - update_prior_quantile` -/
+def cboPriorQuantile (p : Rat) : Rat := 1 - p
+
+def insertAsc (a : Rat) : Vec → Vec
+  | [] => [a]
+  | b :: l => if a ≤ b then a :: b :: l else b :: insertAsc a l
+
+/-- ascending order of the values (what `np.quantile` interpolates in) -/
+def sortAsc : Vec → Vec
+  | [] => []
+  | a :: l => insertAsc a (sortAsc l)
+
+/-- `np.quantile(y, q)` with the default method `"linear"`: virtual position `(n-1)·q` of the ascending order, linear
+interpolation between the two neighbours (`none`: empty input, or `q` outside `[0, 1]` — numpy raises) -/
+def quantileLin (y : Vec) (q : Rat) : Option Rat :=
+  let s := sortAsc y
+  if s.length = 0 ∨ q < 0 ∨ 1 < q then none
+  else
+    let h := ((s.length : Rat) - 1) * q
+    let lo := h.floor.toNat
+    match s[lo]?, s[lo + 1]? with
+    | some a, some b => some (a + (h - (lo : Rat)) * (b - a))
+    | some a, none => some a
+    | none, _ => none
+
+/-- `Real.update_prior`: mask of the told points kept for the prior: `y <= np.quantile(y, q)` -/
+def priorMask (q : Rat) (y : Vec) : Option (List Bool) :=
+  (quantileLin y q).map (fun t => y.map (fun v => decide (v ≤ t)))
+
+/-- the told points (one coordinate) on which the prior is re-fitted: `X[y <= y_]` -/
+def priorPoints {α : Type} (q : Rat) (xs : List α) (y : Vec) : Option (List α) :=
+  (priorMask q y).map (fun m => (xs.zip m).filterMap (fun p => if p.2 then some p.1 else none))
+
+/-- verified checker for an observed selection (`sel[i]` = "told point `i` is among the points the prior was re-fitted on"):
+it is not empty, and nothing left out has a fitted target as small as (= an objective as good as) a selected point's -/
+def checkPriorSel (y : Vec) (sel : List Bool) : Bool :=
+  sel.length == y.length && sel.any id &&
+  (List.range y.length).all (fun i => (List.range y.length).all (fun j =>
+    match y[i]?, y[j]?, sel[i]?, sel[j]? with
+    | some vi, some vj, some true, some false => decide (vi < vj)
+    | _, _, _, _ => true))
+
 /-! ### constant-liar lie / failure replacement under the name maps -/
 
 /-- the lie computed by `Optimizer.ask` on the internal (negated) objectives for an
